@@ -1406,7 +1406,42 @@ func (e *Engine) loopVarValues(fr *Frame, li *loopInfo, ls *LoopSpec, st *State)
 			}
 		}
 		if val == nil {
-			panic(fmt.Sprintf("loop %d of %s: no loop variable %q", li.ordinal, shortFn(fr.fn), v.Src))
+			// the variable may have been renamed: a loop-carried value or a local in
+			// memory is still identified when it is the only one of the declared type
+			want := strings.ReplaceAll(v.Type, " ", "")
+			typeStr := func(t types.Type) string {
+				return strings.ReplaceAll(types.TypeString(t, func(p *types.Package) string { return p.Name() }), " ", "")
+			}
+			var cands []*Term
+			for _, ins := range li.header.Instrs {
+				phi, ok := ins.(*ssa.Phi)
+				if !ok {
+					break
+				}
+				if typeStr(phi.Type()) == want && phi.Comment != "rangeindex" {
+					if x, ok := st.vals[phi]; ok {
+						cands = append(cands, x)
+					}
+				}
+			}
+			if len(cands) == 0 {
+				for _, b := range fr.fn.Blocks {
+					for _, ins := range b.Instrs {
+						if a, ok := ins.(*ssa.Alloc); ok && typeStr(a.Type().(*types.Pointer).Elem()) == want {
+							if l, ok := st.vals[a]; ok {
+								cands = append(cands, e.loadPtr(st, a.Type().(*types.Pointer).Elem(), l))
+							}
+						}
+					}
+				}
+			}
+			if len(cands) == 1 {
+				val = cands[0]
+				e.note("loop variable " + v.Src + " of " + shortFn(fr.fn) + " identified by its type (not found by name)")
+			}
+		}
+		if val == nil {
+			panic(outsideSubset(fmt.Sprintf("loop %d of %s: no loop variable %q", li.ordinal, shortFn(fr.fn), v.Src)))
 		}
 		out = append(out, val)
 	}
